@@ -82,6 +82,20 @@ def streams(tier, rng):
         raw = b''.join(v.to_bytes(4, 'little') for v in vals)
         items.append(('RARR:4:0:' + raw.hex(), 'PARR:u32:%d:1' % n, 'array', vals))
 
+    # every element width against every reader that can take it back (the 64-bit unsigned list must not go through a signed reader)
+    for _ in range(60 if tier == 'quick' else 1000):
+        n = rng.randint(1, 5)
+        v64 = [rng.choice([2 ** 63, 2 ** 64 - 1, 2 ** 63 + 1, 2 ** 63 - 1, rng.getrandbits(64), rng.getrandbits(64) | 2 ** 63]) for _ in range(n)]
+        items.append(('RARR:8:0:' + b''.join(v.to_bytes(8, 'little') for v in v64).hex(), 'PARR:u64:%d:1' % n, 'array', v64))
+        s64 = [rng.getrandbits(63) for _ in range(n)]
+        items.append(('RARR:8:0:' + b''.join(v.to_bytes(8, 'little') for v in s64).hex(), 'PARR:i64:%d:1' % n, 'array', s64))
+        s32 = [rng.getrandbits(31) for _ in range(n)]
+        items.append(('RARR:4:0:' + b''.join(v.to_bytes(4, 'little') for v in s32).hex(), 'PARR:i32:%d:1' % n, 'array', s32))
+        v16 = [rng.getrandbits(16) for _ in range(n)]
+        items.append(('RARR:2:0:' + b''.join(v.to_bytes(2, 'little') for v in v16).hex(), 'PARR:u32:%d:1' % n, 'array', v16))
+        v8 = [rng.getrandbits(8) for _ in range(n)]
+        items.append(('RARR:1:0:' + bytes(v8).hex(), 'PARR:u64:%d:1' % n, 'array', v8))
+
     # long ASCII arrays (the item counters must not be narrower than the number of items of one command)
     for n in ([255, 256, 257, 300, 512] if tier == 'quick' else [255, 256, 257, 258, 300, 511, 512, 513, 1000, 1024, 2000]):
         vals = [rng.randrange(100) for _ in range(n)]
